@@ -6803,6 +6803,12 @@ class SFTPServerHandler(SFTPHandler):
         if src and dst:
             read_to_end = read_from_length == 0
 
+            if read_from_handle == write_to_handle and \
+                    (read_to_end or
+                     (read_from_offset < write_to_offset + read_from_length and
+                      write_to_offset < read_from_offset + read_from_length)):
+                raise SFTPInvalidParameter('Copy ranges overlap')
+
             while read_to_end or read_from_length:
                 if read_to_end:
                     size = _COPY_DATA_BLOCK_SIZE
